@@ -74,7 +74,9 @@ def cases(draw, family=None):
             # the first delivery counts, whatever its usage field holds
             "dups": draw(st.lists(st.integers(0, 10 ** 6), max_size=3)),
             # daily family, sub-daily input: as one DataFrame handed to the constructor instead of two series through from_series
-            "sub_entry": draw(st.sampled_from(["from_series", "from_series", "frame"]))}
+            "sub_entry": draw(st.sampled_from(["from_series", "from_series", "frame"])),
+            # the model in use is a stored model read back from JSON (each run starts from its own fresh load)
+            "reloaded": draw(st.sampled_from([False, False, True]))}
 
 
 def alter(df, c):
@@ -150,7 +152,11 @@ def judge(c, rec):
             zoo.predict(m, b, zoo.build_reporting(b, dict(c["rep"], n=c["interim"] if fam != "billing" else max(c["interim"], 35), start_day=c["rep"]["start_day"] - 100)))
         except Exception:
             pass
-    m_alt = __import__("copy").deepcopy(m)  # both runs start from the same (possibly used) model
+    if c.get("reloaded"):
+        js = m.to_json()
+        m, m_alt = zoo.model_class(fam).from_json(js), zoo.model_class(fam).from_json(js)
+    else:
+        m_alt = __import__("copy").deepcopy(m)  # both runs start from the same (possibly used) model
     df = zoo.reporting_frame(b, c["rep"])
     gaps = 0
     for col, pos, ln in c.get("wx_gaps", ()):
@@ -181,7 +187,7 @@ def judge(c, rec):
             return out
         df, df2 = with_stubs(df), with_stubs(df2)
         ndup = len(c["dups"])
-    cls = ["family=" + fam, "profile=" + b["profile"], "alt=" + c["alt"], "n=%d" % c["rep"]["n"], "used-model=%d" % bool(c.get("interim")), "weather-gaps=%d" % min(gaps, 1)]
+    cls = ["family=" + fam, "profile=" + b["profile"], "alt=" + c["alt"], "n=%d" % c["rep"]["n"], "used-model=%d" % bool(c.get("interim")), "reloaded-model=%d" % bool(c.get("reloaded")), "weather-gaps=%d" % min(gaps, 1)]
     series_entry = bool(c.get("series_entry")) and fam == "caltrack"
 
     def mk(frame):
@@ -253,6 +259,11 @@ def judge(c, rec):
     common = a.index.intersection(z.index)
     av, zv = a.reindex(common).values, z.reindex(common).values
     both = np.isfinite(av) & np.isfinite(zv)
+    if fam in ("hourly", "caltrack") and not np.array_equal(np.isfinite(av), np.isfinite(zv)):
+        # the hourly families predict from weather alone: whether an hour gets a prediction cannot depend on its usage either
+        i = int(np.nonzero(np.isfinite(av) != np.isfinite(zv))[0][0])
+        rec.violation("%s/prediction-presence-depends-on-observed" % fam, c, "at %s: %r with the original usage, %r after '%s' (%d rows differ in having a prediction)" % (
+            common[i], av[i], zv[i], c["alt"], int((np.isfinite(av) != np.isfinite(zv)).sum())))
     if not np.array_equal(av[both].view(np.uint64), zv[both].view(np.uint64)):
         i = int(np.nonzero(av[both].view(np.uint64) != zv[both].view(np.uint64))[0][0])
         rec.violation("%s/prediction-depends-on-observed" % fam, c, "at %s: %r with the original usage, %r after '%s' (%d of %d rows differ)" % (
@@ -296,6 +307,10 @@ def fixed_caltrack_cases(seed):
     for alt, absent in (("nan_head", False), ("nan_tail", True), ("nan_tail", False), ("nan_head", True), ("all_nan", False), ("scale", False)):
         out.append({"kind": "alt", "baseline": b, "rep": r, "alt": alt, "k": 3.0, "alt_seed": 1, "interim": None, "wx_gaps": [], "subdaily": False,
                     "sub_alt": "scale", "feed_h0": 0, "series_entry": True, "meter_rows_absent": absent})
+    # hours that read exactly zero (an outage on an electric meter), through the constructor and through from_series, fresh and reloaded
+    for series_entry, reloaded in ((False, False), (True, False), (False, True)):
+        out.append({"kind": "alt", "baseline": b, "rep": r, "alt": "zero_cells", "k": 3.0, "alt_seed": 4, "interim": None, "wx_gaps": [], "subdaily": False,
+                    "sub_alt": "scale", "feed_h0": 0, "series_entry": series_entry, "meter_rows_absent": False, "dups": [], "reloaded": reloaded})
     return out
 
 
